@@ -2,14 +2,18 @@
    Only statements; every proof is `exact <lemma of Proof/C08.v>`.
 
    input  = an adapter stack (tree of ExtendedToOriginalDecorator / MultiTestResult / TestResultDecorator /
-            Tagger over targets given by ANY capability set, and TestByTestResult) and a history of calls;
+            Tagger over targets given by ANY capability set, and TestByTestResult, each with the set of tests its
+            on_test callback raises for) and a history of calls;
    model  = Model/Adapters.v run on it: the log of every innermost result, the on_test callbacks, the
             calls that raised;
    wf     = the stack is well-formed (a TestResultDecorator/Tagger decorates something that speaks the
-            extended protocol), the history is bracketed, detail names (arbitrary strings) are distinct (Spec.C08.wfb). *)
+            extended protocol), the history is bracketed, detail names (arbitrary strings) are distinct, an on_test
+            raises only where no result comes after its TestByTestResult (Spec.C08.wfb). *)
 From TT Require Import Lib.Base Model.Adapters Spec.C08 Corr.C08 Proof.C08.
 
-(* The model meets the whole statement, for every stack, every capability set and every history. *)
+(* The model meets the whole statement, for every stack, every capability set, every history and whatever
+   tests the on_test callbacks raise for (wf: no result is dispatched to after a TestByTestResult whose on_test
+   raises - a wrapped result that raises in front of others is outside the statement). *)
 Theorem C08_holds : forall i : input, wf i -> spec_okb i (model i) = true.
 Proof. exact model_meets_spec. Qed.
 Print Assumptions C08_holds.
@@ -28,7 +32,7 @@ Print Assumptions C08_obs_eqb.
 
 (* One observation per innermost result, a log for a logging result and callbacks for a TestByTestResult. *)
 Theorem C08_leaves : forall i, wf i ->
-  Forall2 (fun lt lo => match fst lt, lo with LfTarget _, OLog _ | LfByTest, OCbs _ => True | _, _ => False end)
+  Forall2 (fun lt lo => match fst lt, lo with LfTarget _, OLog _ | LfByTest _, OCbs _ => True | _, _ => False end)
           (spec_leaves (stack i)) (o_leaves (model i)).
 Proof. exact model_leaves. Qed.
 Print Assumptions C08_leaves.
@@ -73,9 +77,10 @@ Print Assumptions C08_no_pass_from_fail.
 
 (* TestByTestResult: one callback per test, in order, with the times in force at startTest / stopTest,
    the tags current before the pop (two-level reading, the Taggers' changes first), the details and the
-   documented status word (Spec.C08.expected_cbs). *)
-Theorem C08_bytest : forall i, wf i -> forall k tg,
-  nth_error (spec_leaves (stack i)) k = Some (LfByTest, tg) ->
+   documented status word (Spec.C08.expected_cbs) - whatever tests its on_test raises for (bad): a report that
+   failed does not disturb the following ones, each still carries its own times, tags and details. *)
+Theorem C08_bytest : forall i, wf i -> forall k bad tg,
+  nth_error (spec_leaves (stack i)) k = Some (LfByTest bad, tg) ->
   exists cbs, nth_error (o_leaves (model i)) k = Some (OCbs cbs)
               /\ Forall2 CbSpec (expected_cbs tg sst_init (hist i)) cbs
               /\ map cb_test cbs = stop_tests (hist i)
@@ -92,7 +97,14 @@ Theorem C08_bytest_words :
 Proof. exact bt_words_documented. Qed.
 Print Assumptions C08_bytest_words.
 
-(* Only done() / progress() can raise, and only AttributeError. *)
+(* What comes out of the calls of a history: AttributeError from done() / progress(), and from the stopTest of a
+   test what the on_test of some TestByTestResult raises for that test; nothing else. *)
+Theorem C08_raised : forall i, wf i ->
+  RaisedSpec (map fst (spec_leaves (stack i))) (hist i) (o_raised (model i)).
+Proof. exact model_raised. Qed.
+Print Assumptions C08_raised.
+
+(* Of themselves only done() / progress() can raise, and only AttributeError. *)
 Theorem C08_raises : forall a c e, raises a c = Some e ->
   e = AttributeError /\ (c = Done \/ exists o w, c = Progress o w).
 Proof. exact raises_only. Qed.
@@ -105,24 +117,24 @@ Theorem C08_raise_delivers_nothing : forall a c e, raises a c = Some e ->
 Proof. exact raising_call_delivers_nothing. Qed.
 Print Assumptions C08_raise_delivers_nothing.
 
-(* non-vacuity: a MultiTestResult over a tagged TestByTestResult and a 2.6-style result; an unexpected
-   success of a PlaceHolder with details, a skip with a 'reason' detail *)
+(* non-vacuity: a MultiTestResult over a 2.6-style result and a tagged TestByTestResult whose on_test raises
+   for test 1; an unexpected success of a PlaceHolder with details, a skip with a 'reason' detail *)
 Example C08_example :
   let d := [(n_reason, DText [97; 32]); ([97], DText [32; 98; 32])] in
-  let i := {| stack := Multi [Tagger [1] [] ByTest; Target py26];
+  let i := {| stack := Multi [Target py26; Tagger [1] [] (ByTest [1])];
               hist := [StartTestRun; Tags [2] []; Time 3; StartTest (th 1); AddOk KUxSuccess (th 1) (Some d);
                        Time 5; StopTest (th 1); StartTest (tc 0); AddSkip (tc 0) (inr d); StopTest (tc 0);
                        Progress 1 1; Done] |} in
   wf i
   /\ model i =
      {| o_leaves :=
-          [OCbs [{| cb_test := th 1; cb_status := Some w_success; cb_start := Some 3; cb_stop := Some 5;
+          [OLog [StartTest (th 1); AddErr KFailure (th 1) (inl Fresh); StopTest (th 1);
+                 StartTest (tc 0); AddOk KSuccess (tc 0) None; StopTest (tc 0)];
+           OCbs [{| cb_test := th 1; cb_status := Some w_success; cb_start := Some 3; cb_stop := Some 5;
                     cb_tags := [1; 2]; cb_details := Some d |};
                  {| cb_test := tc 0; cb_status := Some w_skip; cb_start := Some 5; cb_stop := Some 5;
-                    cb_tags := [1; 2]; cb_details := Some d |}];
-           OLog [StartTest (th 1); AddErr KFailure (th 1) (inl Fresh); StopTest (th 1);
-                 StartTest (tc 0); AddOk KSuccess (tc 0) None; StopTest (tc 0)]];
-        o_raised := [(10, AttributeError)] |}
+                    cb_tags := [1; 2]; cb_details := Some d |}]];
+        o_raised := [(6, CallbackError); (10, AttributeError)] |}
   /\ substringb [98] (details_to_str d (Some n_traceback)) = true.
 Proof. vm_compute. repeat split. Qed.
 
@@ -136,4 +148,18 @@ Example C08_example_tracebacks :
        ++ n_traceback ++ [120] ++ t_open ++ [99] ++ t_close ++ [10; 10; 97; 10]
   /\ e2o_conv py27 (AddErr KError (tc 0) (inr d))
      = [AddErr KError (tc 0) (inl (Str (details_to_str d (Some n_traceback))))].
+Proof. vm_compute. repeat split. Qed.
+
+(* Outside wf, for the record (what the model, faithful to the code, shows): MultiTestResult._dispatch stops at
+   the member that raised - with a TestByTestResult whose on_test raises for test 0 in FRONT of a 2.6-style result,
+   that result never gets stopTest(test 0). *)
+Example C08_example_fault_reaches_sibling :
+  let i := {| stack := Multi [ByTest [0]; Target py26];
+              hist := [StartTest (tc 0); AddOk KSuccess (tc 0) None; StopTest (tc 0)] |} in
+  fault_reaches_sibling i = true /\ wfb i = false
+  /\ o_leaves (model i) =
+     [OCbs [{| cb_test := tc 0; cb_status := Some w_success; cb_start := None; cb_stop := None;
+               cb_tags := []; cb_details := None |}];
+      OLog [StartTest (tc 0); AddOk KSuccess (tc 0) None]]
+  /\ o_raised (model i) = [(2, CallbackError)].
 Proof. vm_compute. repeat split. Qed.
